@@ -97,9 +97,10 @@ def make_generated(rng, kind):
         out.append(dict(base, name="gen-genotype-multisample", subcommand="genotype",
                         argv=["genotype", "-o", "{out:genotyped.vcf}", "--reference", "{W}/ref.fa", "{W}/in.vcf", "{W}/reads.bam"]))
     elif kind == "compare-names":
-        w1 = W.gen_core(rng, n_chroms=rng.choice([1, 2]), n_samples=1, sample_names=[rng.choice(["alpha", "s1", "b"])], kinds=["snv"], length=600, het_rate=0.95)
-        W.add_alt_truth(rng, w1, "alt", flip_rate=0.3)
-        W.add_alt_truth(rng, w1, "alt2", flip_rate=0.6)
+        w1 = W.gen_core(rng, n_chroms=rng.choice([1, 2]), n_samples=1, sample_names=[rng.choice(["alpha", "s1", "b"])], kinds=["snv"], length=1000,
+                        n_variants=rng.choice([12, 18, 25]), het_rate=0.95)
+        W.add_alt_truth(rng, w1, "alt", flip_rate=0.15)
+        W.add_alt_truth(rng, w1, "alt2", flip_rate=0.3)
         files = [{"kind": "vcf", "name": "a.vcf", "phased": "PS", "truth": "main"},
                  {"kind": "vcf", "name": "b.vcf", "phased": "PS", "truth": "alt", "rename": {w1["samples"][0]: rng.choice(["beta", "s2", "a"])}},
                  {"kind": "vcf", "name": "c.vcf", "phased": "PS", "truth": "alt2", "rename": {w1["samples"][0]: rng.choice(["gamma", "s3", "C"])}}]
@@ -122,10 +123,10 @@ def make_generated(rng, kind):
                         argv=["polyphase", "-o", "{out:phased.vcf}", "--ploidy", str(ploidy), "--reference", "{W}/ref.fa", "--threads", "{threads}",
                               "-B", rng.choice(["0", "1", "3", "5"]), "--include-haploid-sets", "{W}/in.vcf", "{W}/reads.bam"]))
     elif kind == "pedigree":
-        fams = rng.choice([1, 1, 2])
+        fams = rng.choice([1, 1, 1, 2])
         names_pool = rng.choice([["kid", "mum", "dad", "kid2", "mum2", "dad2"], ["c", "B", "a", "Z", "y", "X"], ["NA3", "NA1", "NA2", "HG3", "HG1", "HG2"]])
-        quartet = fams == 1 and rng.random() < 0.4
-        samples = names_pool[:3 * fams] + (["sib"] if quartet else [])
+        extra_kids = rng.choice([[], ["sib"], ["sib"]]) if fams == 1 else []
+        samples = names_pool[:3 * fams] + extra_kids
         order = list(samples)
         rng.shuffle(order)
         w = W.gen_core(rng, n_chroms=rng.choice([1, 2]), n_samples=len(order), sample_names=order, kinds=["snv"], length=rng.choice([600, 1200]), het_rate=0.8)
@@ -134,7 +135,7 @@ def make_generated(rng, kind):
         ped_lines = []
         for f in range(fams):
             kid, mum, dad = names_pool[3 * f], names_pool[3 * f + 1], names_pool[3 * f + 2]
-            kids = [kid] + (["sib"] if quartet else [])
+            kids = [kid] + extra_kids
             for kd in kids:
                 hm, hf = rng.randrange(2), rng.randrange(2)
                 t[kd] = [list(t[mum][hm]), list(t[dad][hf])]
@@ -145,18 +146,25 @@ def make_generated(rng, kind):
                 al = sorted(h[k] for h in t[s])
                 r["calls"][s][0] = "/".join(str(a) for a in al)
         rng.shuffle(ped_lines)
-        W.gen_library(rng, w, "L0", depth=rng.choice([2, 4, 8]), read_len=(150, 500))
+        W.gen_library(rng, w, "L0", depth=rng.choice([3, 6, 10, 16, 24]), read_len=(150, 500))
+        maxcov = str(rng.choice([15, 15, 14, 10, 8, 7]))
         files = [{"kind": "ref", "name": "ref.fa"}, {"kind": "bam", "lib": "L0", "name": "reads.bam"}, {"kind": "vcf", "name": "in.vcf"},
                  {"kind": "text", "name": "fam.ped", "text": "\n".join(ped_lines) + "\n"}]
         base = {"world": W.clean_world(w), "files": files, "stdout": None, "expect_exit": 0}
         out.append(dict(base, name="gen-phase-ped", subcommand="phase",
                         argv=["phase", "-o", "{out:phased.vcf}", "--reference", "{W}/ref.fa", "--ped", "{W}/fam.ped", "--recombination-list", "{out:recomb.tsv}",
-                              "--output-read-list", "{out:reads.tsv}", "{W}/in.vcf", "{W}/reads.bam"]))
+                              "--output-read-list", "{out:reads.tsv}", "--internal-downsampling", maxcov, "{W}/in.vcf", "{W}/reads.bam"]))
         out.append(dict(base, name="gen-phase-ped-use-ped-samples", subcommand="phase",
-                        argv=["phase", "-o", "{out:phased.vcf}", "--reference", "{W}/ref.fa", "--ped", "{W}/fam.ped", "--use-ped-samples", "--tag", "HP",
+                        argv=["phase", "-o", "{out:phased.vcf}", "--reference", "{W}/ref.fa", "--ped", "{W}/fam.ped", "--use-ped-samples", "--tag", rng.choice(["HP", "PS"]),
+                              "--output-read-list", "{out:reads.tsv}", "--recombination-list", "{out:recomb.tsv}", "--internal-downsampling", maxcov,
                               "{W}/in.vcf", "{W}/reads.bam"]))
-        out.append(dict(base, name="gen-genotype-ped", subcommand="genotype",
-                        argv=["genotype", "-o", "{out:genotyped.vcf}", "--reference", "{W}/ref.fa", "--ped", "{W}/fam.ped", "{W}/in.vcf", "{W}/reads.bam"]))
+        out.append(dict(base, name="gen-phase-ped-distrust", subcommand="phase",
+                        argv=["phase", "-o", "{out:phased.vcf}", "--reference", "{W}/ref.fa", "--ped", "{W}/fam.ped", "--use-ped-samples", "--distrust-genotypes",
+                              "--changed-genotype-list", "{out:changed.tsv}", "--output-read-list", "{out:reads.tsv}", "--no-genetic-haplotyping",
+                              "{W}/in.vcf", "{W}/reads.bam"]))
+        if not extra_kids:
+            out.append(dict(base, name="gen-genotype-ped", subcommand="genotype",
+                            argv=["genotype", "-o", "{out:genotyped.vcf}", "--reference", "{W}/ref.fa", "--ped", "{W}/fam.ped", "{W}/in.vcf", "{W}/reads.bam"]))
     else:
         raise ValueError(kind)
     return out
@@ -414,12 +422,20 @@ class NodeEngine(Engine):
                 i = sc["idx"]
                 r0 = ref[i]
                 if "node_failure" in r0:
+                    if "timeout" in r0["node_failure"]:
+                        stats.inc("reference_timeouts")
+                        unstable.add(i)
+                        continue
                     raise RuntimeError("reference node failed on %s: %s" % (sc["name"], r0["node_failure"]))
                 log.add("ref", [sc["name"], r0["status"]["exit"], r0["status"]["exc"], sorted(r0["digests"].items())])
                 stats.inc("scenario_executions")
                 stats.inc("subcommand_" + sc.get("subcommand", sc["argv"][0]))
                 if r0["status"]["exit"] != sc.get("expect_exit", 0):
                     stats.inc("reference_unexpected_exit")
+                    if r0["status"]["exit"] == 2:
+                        # argparse rejected the command line: the scenario itself is wrong
+                        stats.inc("reference_usage_error")
+                        stats.inc("reference_usage_error:" + sc["name"].split("@")[0])
                 if r0["status"]["exc"]:
                     stats.inc("reference_raised")
                 t = twin.get(i)
@@ -437,8 +453,15 @@ class NodeEngine(Engine):
                     cfg = node["configs"][i]
                     stats.inc("scenario_executions")
                     if "node_failure" in r:
-                        viol.append(violation("node-crashed", "%s on node %d (%s): %s" % (sc["name"], k, describe_cfg(node, cfg), r["node_failure"]),
-                                              "node-crashed:%s" % sc["name"].split("@")[0]))
+                        if "timeout" in r["node_failure"]:
+                            stats.inc("node_timeouts_inconclusive")  # load dependent: never an alarm
+                        elif "harness" in r["node_failure"]:
+                            raise RuntimeError("node %d: %s" % (k, r["node_failure"]))
+                        elif i not in unstable:
+                            viol.append(violation("node-crashed", "%s on node %d (%s): %s" % (sc["name"], k, describe_cfg(node, cfg), r["node_failure"]),
+                                                  "node-crashed:%s" % sc["name"].split("@")[0]))
+                        continue
+                    if i in ref and "node_failure" in ref[i]:
                         continue
                     for kk, n in r["pool"].items():
                         if n and kk not in ("pools", "tasks"):
@@ -486,6 +509,7 @@ class NodeEngine(Engine):
                             sc["name"], " ".join(sc["argv"][:1]), describe_cfg(node, cfg), what),
                         "node-disagrees:%s:%s" % (sc["name"].split("@")[0], outname),
                         dims=dims, node=k, scenario=i))
+            unstable = {i for i in unstable if "node_failure" not in ref[i]}
             if unstable:
                 # the reference disagrees with its identically configured twin: nondeterminism no seam controls.
                 # Confirm by re-running both a second time; only a persistent disagreement is reported.
@@ -627,6 +651,10 @@ class NodeEngine(Engine):
 
     def required_reach(self, prop, tier):
         return {"scenario_executions": 100, "fault_hashseed-change": 20, "pool_uses": 1}
+
+    def forbidden_reach(self, prop, tier):
+        # every scenario is meant to end with its recorded exit status on the reference node
+        return ["reference_usage_error"]
 
     def sample(self, prop, case):
         return {"scenarios": [{"name": s["name"], "argv": s["argv"]} for s in case["scenarios"][:6]] + ["... %d scenarios in total" % len(case["scenarios"])],
